@@ -1204,3 +1204,31 @@ def element_alternatives(repo, fi: FunctionInfo, el: ast.AST, depth: int = 0) ->
         if out:
             return out
     return [((), el)]
+
+
+_PLAIN_DECORATORS = {"staticmethod", "classmethod", "property", "abstractmethod", "abc.abstractmethod", "functools.wraps", "wraps"}
+_MEMO_DECORATORS = {"lru_cache", "functools.lru_cache", "cache", "functools.cache", "cached_property", "functools.cached_property"}
+_ITER_MAKERS = {"chain", "itertools.chain", "chain.from_iterable", "itertools.chain.from_iterable", "map", "filter", "zip", "iter", "enumerate", "reversed", "combinations", "combinations_w_r", "combinations_with_replacement", "itertools.combinations", "itertools.combinations_with_replacement", "itertools.product", "product", "itertools.islice", "islice"}
+
+
+def check_decorators(ck, rule: str, fis) -> None:
+    """decorators change what a call of the function means: a memoising decorator on a
+    function that hands out a one-shot iterator (or a generator) gives the second caller an
+    exhausted object; a decorator this analysis does not know makes the body no evidence."""
+    for fi in fis:
+        if fi is None:
+            continue
+        for d in getattr(fi.node, "decorator_list", []):
+            name = ast.unparse(d.func if isinstance(d, ast.Call) else d)
+            if name in _PLAIN_DECORATORS or name.endswith((".setter", ".getter", ".deleter")):
+                continue
+            if name in _MEMO_DECORATORS:
+                rets = [r.value for r in own_nodes(fi.node) if isinstance(r, ast.Return) and r.value is not None]
+                gen = any(isinstance(n, (ast.Yield, ast.YieldFrom)) for n in own_nodes(fi.node))
+                one_shot = gen or any(isinstance(v, ast.GeneratorExp) or (isinstance(v, ast.Call) and ast.unparse(v.func) in _ITER_MAKERS) for v in rets)
+                if one_shot:
+                    ck.violated(rule, fi, f"@{ast.unparse(d)}", f"{fi.name} returns a one-shot iterator and is memoised by @{name}: the second call with the same arguments receives the object the first caller already consumed, so every loop over it runs zero times")
+                else:
+                    ck.unknown(rule, fi, f"@{ast.unparse(d)}", f"{fi.name} is memoised by @{name}: whether callers may share (and mutate) the returned object is not decided")
+                continue
+            ck.unknown(rule, fi, f"@{ast.unparse(d)}", f"decorator {name} is not known to this analysis: the body of {fi.name} is no evidence of what a call does")
